@@ -4,6 +4,7 @@ import (
 	"cmp"
 	"encoding/binary"
 	"github.com/stretchr/testify/mock"
+	"math"
 	"slices"
 	"sync"
 	"sync/atomic"
@@ -85,8 +86,14 @@ func (cm *MemClientMgr) Add(cc *ClientConn) {
 	cm.mu.Lock()
 	defer cm.mu.Unlock()
 
-	cm.nextClientID.Add(1)
-	binary.BigEndian.PutUint16(cc.ID[:], uint16(cm.nextClientID.Load()))
+	// The ID is 16 bits wide and wraps around after 65,535 connections: skip zero and any ID that is still held by
+	// a connected client so that a new connection never takes over a live user's ID.
+	for i := 0; i <= math.MaxUint16; i++ {
+		binary.BigEndian.PutUint16(cc.ID[:], uint16(cm.nextClientID.Add(1)))
+		if _, taken := cm.clients[cc.ID]; !taken && cc.ID != (ClientID{}) {
+			break
+		}
+	}
 
 	cm.clients[cc.ID] = cc
 }
